@@ -22,18 +22,19 @@ import (
 //   - every element of the reply was at least INVOKED before the listing RETURNED,
 //   - no element twice, and the order is the family's (score order for ZRANGE incl. REV, insertion order for LRANGE),
 //   - the reported cardinalities (HLEN, SCARD, LLEN, array length of the listing) lie between the two counts above.
+//
 // Added after the seeded change C05-zrange-rlock-shared-cache (ZRANGE under the read lock filling a shared lazily built cache in place:
 // a second reader saw the half-built listing), which the small porcupine scenarios cannot reach: with four members the window is a
 // few nanoseconds.
 type bigreadFamily struct {
 	name    string
 	key     string
-	add     func(i int) []string   // command adding element i
-	elem    func(i int) string     // the element's text in listings
-	listers [][]string             // listing commands; each replies a flat array
-	stride  []int                  // how many array items one element occupies in that listing (WITHSCORES / HGETALL: 2)
-	ordered []int                  // 0 unordered, 1 ascending by index, -1 descending by index
-	card    []string               // cardinality command, or nil
+	add     func(i int) []string // command adding element i
+	elem    func(i int) string   // the element's text in listings
+	listers [][]string           // listing commands; each replies a flat array
+	stride  []int                // how many array items one element occupies in that listing (WITHSCORES / HGETALL: 2)
+	ordered []int                // 0 unordered, 1 ascending by index, -1 descending by index
+	card    []string             // cardinality command, or nil
 }
 
 func bigreadFamilies() []bigreadFamily {
